@@ -50,4 +50,6 @@ HARNESSES += [h for h in _load("C17").HARNESSES if h.name.startswith("cmd.SFC_GE
 HARNESSES += _load("C16").oc_harnesses()
 # chunked containers: chunk sequences with symbolic contents (AIFF), parse + gate + close
 HARNESSES += _load("C16").seq_harnesses()
+# Sound Designer II resource fork parser on arbitrary bytes
+HARNESSES += _load("C16").sd2_harnesses()
 META = {"assumptions": ["E-memfile (content nondeterministic)", "layering by contracts (DESIGN 3.3)"], "outside": ["whole-file parse of the chunked containers in one query", "files longer than the stated length"]}
